@@ -357,10 +357,6 @@ class Translator:
                     ne = EMPTY
                 else:
                     ne = inter(c, ok, cat(ANYCHAR, ANYSTAR))
-                if marked and s == 0 and not is_eps(c):
-                    # a coefficient that is exactly the marker cannot occur: the marker
-                    # is only emitted together with the character that follows it.
-                    pass
                 if not is_empty(ne):
                     out = lin_union(out, {v: (ne, False)})
                 if n:
